@@ -24,6 +24,11 @@ executes it, for every adapter class of /repo:
      handed to the scheduler == last job id of every step in progress (oracle: the stub's own
      ledger of issued and not yet terminated jobs).
 
+Every case carries a logging configuration ("log": default | debug = what `maestro -d 1` sets up:
+root and maestrowf loggers at DEBUG with a formatting handler); generated cases alternate between the
+two, and (a)-(c) are required under both ("logging with side effects": a debug message that consumes a
+one-shot iterator, a guard on isEnabledFor(DEBUG) that changes what is cancelled).
+
 A failure = ck.violation(what, case) where `case` (adapter, ids, failing ids, ...) replays
 with `replay_case(case)`; corpus/C07/adapters/*.json is run first.
 """
@@ -431,10 +436,14 @@ class ProcLayer:
         w = self.world
 
         def sp(cmd, *a, **k):
-            return w.handle(cmd, True)
+            p = w.handle(cmd, True)
+            p.args = cmd
+            return p
 
         def popen(cmd, *a, **k):
-            return w.handle(cmd, bool(k.get("universal_newlines") or k.get("text") or k.get("encoding")))
+            p = w.handle(cmd, bool(k.get("universal_newlines") or k.get("text") or k.get("encoding")))
+            p.args = cmd
+            return p
 
         self.saved = []
         spots = [("maestrowf.utils", "start_process", sp), ("maestrowf.utils", "Popen", popen),
@@ -459,6 +468,69 @@ class ProcLayer:
     def __exit__(self, *a):
         for m, attr, old in reversed(self.saved):
             setattr(m, attr, old)
+        return False
+
+
+# ----------------------------------------------------------------------------
+# logging configuration as a case dimension ("logging with side effects")
+# ----------------------------------------------------------------------------
+LOG_LEVELS = ("default", "debug")
+LOG_RECORDS = {"default": 0, "debug": 0}     # records that reached a handler, per configuration
+
+
+class _CountingSink:
+    def __init__(self, level):
+        self.level = level
+
+    def write(self, text):
+        LOG_RECORDS[self.level] += 1
+
+    def flush(self):
+        pass
+
+
+class LogLevel:
+    """"default": no logger is enabled for DEBUG (the rest of the harness silences logging altogether).
+    "debug": what `maestro run -d 1` / `conductor -d 1` set up through LoggerUtility -- root logger and the
+    maestrowf logger at DEBUG, a formatting stream handler attached (the stream is a counting sink) -- so
+    every LOGGER.debug(...) argument is evaluated and every isEnabledFor(DEBUG) guard is entered.
+    Everything is restored on exit."""
+
+    FORMAT = "[%(asctime)s: %(levelname)s] [%(module)s: %(lineno)d] %(message)s"
+
+    def __init__(self, level):
+        self.level = level if level in LOG_LEVELS else "default"
+
+    def __enter__(self):
+        import logging
+        root, mw = logging.getLogger(), logging.getLogger("maestrowf")
+        self.saved = (root.manager.disable, root.level, mw.level, mw.propagate, logging.raiseExceptions)
+        self.handlers = []
+        if self.level == "debug":
+            logging.disable(logging.NOTSET)
+            logging.raiseExceptions = False      # a malformed message must not spam stderr
+            for lg in (root, mw):
+                h = logging.StreamHandler(_CountingSink("debug"))
+                h.setLevel(logging.DEBUG)
+                h.setFormatter(logging.Formatter(self.FORMAT))
+                lg.addHandler(h)
+                lg.setLevel(logging.DEBUG)
+                self.handlers.append((lg, h))
+        else:
+            logging.disable(logging.CRITICAL)
+        return self
+
+    def __exit__(self, *a):
+        import logging
+        root, mw = logging.getLogger(), logging.getLogger("maestrowf")
+        for lg, h in self.handlers:
+            lg.removeHandler(h)
+        disable, rl, ml, mp, rex = self.saved
+        root.setLevel(rl)
+        mw.setLevel(ml)
+        mw.propagate = mp
+        logging.raiseExceptions = rex
+        logging.disable(disable)
         return False
 
 
@@ -625,8 +697,6 @@ def judge_unit(case, obs):
 def build_graph(nodes, cfg, root, adapter):
     import maestrowf.datastructures.core.executiongraph as eg
     from maestrowf.datastructures.core.study import StudyStep
-    import logging
-    logging.disable(logging.CRITICAL)
     eg.sleep = lambda *_a, **_k: None
     dag = eg.ExecutionGraph(submission_attempts=cfg.get("attempts", 1), submission_throttle=cfg.get("throttle", 0),
                             use_tmp=False, dry_run=False)
@@ -694,83 +764,84 @@ def run_e2e(case, rng=None):
                 WORLD.reset(pool=[int(JobID(p)) for p in pool])
             with ProcLayer(w):
                 dag = build_graph(case["nodes"], case["cfg"], root, adapter_dict(name))
-                issued = []          # ids in order of issue (as the adapter stores them)
-                live = {}            # id -> True while not reported terminal
+                with LogLevel(case.get("log", "default")):
+                    issued = []          # ids in order of issue (as the adapter stores them)
+                    live = {}            # id -> True while not reported terminal
 
-                def sync_issued():
-                    cur = [f58enc(n) if flux_textual(name) else n for n in WORLD.submits] if isflux else list(w.order)
-                    for j in cur[len(issued):]:
-                        issued.append(j)
-                        live[j] = True
-
-                def set_state(j, st):
-                    if isflux:
-                        WORLD.state[int(JobID(j))] = FLUX_CODE[st]
-                    else:
-                        w.state[j] = st
-
-                if case["mode"] == "inject":
-                    # write the ledger directly: step i in progress with the given job history
-                    k = 0
-                    for i, hist in case["inject"]:
-                        rec = dag.values["n%d" % i]
-                        for _ in range(hist):
-                            j = pool[k]
-                            k += 1
-                            if isflux and not flux_textual(name):
-                                j = int(JobID(j))
+                    def sync_issued():
+                        cur = [f58enc(n) if flux_textual(name) else n for n in WORLD.submits] if isflux else list(w.order)
+                        for j in cur[len(issued):]:
                             issued.append(j)
-                            rec.jobid.append(j)
-                        for old in issued[-hist:-1]:
-                            live[old] = False
-                        live[issued[-1]] = True
-                        dag.in_progress.add("n%d" % i)
-                else:
-                    npolls = case["npolls"] if gen else len(case["polls"])
-                    for p in range(npolls):
-                        obs["phase"] = "poll %d" % p
-                        alive = [j for j in issued if live[j]]
-                        if gen:
-                            plan = []
-                            for j in alive:
-                                st = rng.choice(["RUNNING", "RUNNING", "RUNNING", "PENDING", "FINISHED", "FINISHED",
-                                                 "FAILED", "TIMEDOUT", "TIMEDOUT"])
-                                plan.append([issued.index(j), st])
-                            case["polls"].append(plan)
+                            live[j] = True
+
+                    def set_state(j, st):
+                        if isflux:
+                            WORLD.state[int(JobID(j))] = FLUX_CODE[st]
                         else:
-                            plan = case["polls"][p]
-                        for idx, st in plan:
-                            if idx < len(issued) and live.get(issued[idx]):
-                                set_state(issued[idx], st)
-                                if st in TERMINAL:
-                                    live[issued[idx]] = False
-                        done = dag.execute_ready_steps()
-                        sync_issued()
-                        if done:
-                            break
-                expected = [j for j in issued if live[j]]
-                failing = [issued[i] for i in sorted(fail_idx) if i < len(issued)]
-                if isflux:
-                    WORLD.fail = set(int(JobID(j)) for j in failing)
-                    WORLD.cancels = []
-                else:
-                    w.fail = set(str(j) for j in failing)
-                obs["phase"] = "cancel_study"
-                obs["expected"] = [str(j) for j in expected]
-                obs["failing"] = [str(j) for j in failing if j in expected]
-                obs["issued"] = len(issued)
-                obs["dag_inprog"] = len(dag.in_progress)
-                ret = dag.cancel_study()
-                obs["ret"] = getattr(ret, "name", repr(ret))
-                obs["is_canceled"] = bool(dag.is_canceled)
-                if isflux:
-                    if flux_textual(name):
-                        obs["handed"] = [f58enc(n) for n in WORLD.cancels]
+                            w.state[j] = st
+
+                    if case["mode"] == "inject":
+                        # write the ledger directly: step i in progress with the given job history
+                        k = 0
+                        for i, hist in case["inject"]:
+                            rec = dag.values["n%d" % i]
+                            for _ in range(hist):
+                                j = pool[k]
+                                k += 1
+                                if isflux and not flux_textual(name):
+                                    j = int(JobID(j))
+                                issued.append(j)
+                                rec.jobid.append(j)
+                            for old in issued[-hist:-1]:
+                                live[old] = False
+                            live[issued[-1]] = True
+                            dag.in_progress.add("n%d" % i)
                     else:
-                        obs["handed"] = [str(n) for n in WORLD.cancels]
-                else:
-                    obs["handed"] = list(w.cancel_args)
-                obs["phase"] = "done"
+                        npolls = case["npolls"] if gen else len(case["polls"])
+                        for p in range(npolls):
+                            obs["phase"] = "poll %d" % p
+                            alive = [j for j in issued if live[j]]
+                            if gen:
+                                plan = []
+                                for j in alive:
+                                    st = rng.choice(["RUNNING", "RUNNING", "RUNNING", "PENDING", "FINISHED", "FINISHED",
+                                                     "FAILED", "TIMEDOUT", "TIMEDOUT"])
+                                    plan.append([issued.index(j), st])
+                                case["polls"].append(plan)
+                            else:
+                                plan = case["polls"][p]
+                            for idx, st in plan:
+                                if idx < len(issued) and live.get(issued[idx]):
+                                    set_state(issued[idx], st)
+                                    if st in TERMINAL:
+                                        live[issued[idx]] = False
+                            done = dag.execute_ready_steps()
+                            sync_issued()
+                            if done:
+                                break
+                    expected = [j for j in issued if live[j]]
+                    failing = [issued[i] for i in sorted(fail_idx) if i < len(issued)]
+                    if isflux:
+                        WORLD.fail = set(int(JobID(j)) for j in failing)
+                        WORLD.cancels = []
+                    else:
+                        w.fail = set(str(j) for j in failing)
+                    obs["phase"] = "cancel_study"
+                    obs["expected"] = [str(j) for j in expected]
+                    obs["failing"] = [str(j) for j in failing if j in expected]
+                    obs["issued"] = len(issued)
+                    obs["dag_inprog"] = len(dag.in_progress)
+                    ret = dag.cancel_study()
+                    obs["ret"] = getattr(ret, "name", repr(ret))
+                    obs["is_canceled"] = bool(dag.is_canceled)
+                    if isflux:
+                        if flux_textual(name):
+                            obs["handed"] = [f58enc(n) for n in WORLD.cancels]
+                        else:
+                            obs["handed"] = [str(n) for n in WORLD.cancels]
+                    else:
+                        obs["handed"] = list(w.cancel_args)
+                    obs["phase"] = "done"
     except Exception as e:
         obs["exc"] = "%s: %s" % (type(e).__name__, str(e)[:200])
     finally:
@@ -1034,6 +1105,11 @@ def gen_boundary_e2e(rng, name, n):
             "inject": inject, "fail": fail, "stream": "boundary"}
 
 
+def _quiet(fn):
+    with LogLevel("default"):
+        return fn()
+
+
 def can_submit(name):
     """The adapters whose submit path works under the stubs (the two oldest flux interfaces
     reject the keyword arguments FluxScriptAdapter.submit passes -- not a C07 matter)."""
@@ -1048,11 +1124,18 @@ def can_submit(name):
 # entry points
 # ----------------------------------------------------------------------------
 def replay_case(case, rng=None):
-    """-> (observable, verdict sentence or None)"""
+    """-> (observable, verdict sentence or None); case["log"] = logging configuration (default | debug)"""
     if case.get("kind") == "e2e":
-        obs = run_e2e(case, rng)
+        # the graph is built silently (a 1000-step graph logs millions of lines); submissions, status polls
+        # and cancel_study run under the case's configuration (inside run_e2e)
+        with LogLevel("default"):
+            obs = run_e2e(case, rng)
+    else:
+        with LogLevel(case.get("log", "default")):
+            obs = run_unit(case)
+    obs["log"] = case.get("log", "default")
+    if case.get("kind") == "e2e":
         return obs, judge_e2e(case, obs)
-    obs = run_unit(case)
     return obs, judge_unit(case, obs)
 
 
@@ -1082,8 +1165,19 @@ def run_adapters(ck):
     def bump(k):
         hist[k] = hist.get(k, 0) + 1
 
+    turn = [ck.seed]
+
+    def lv(case):
+        """the logging configuration is a dimension of every generated case: alternate instead of doubling"""
+        turn[0] += 1
+        case["log"] = LOG_LEVELS[turn[0] % 2]
+        return case
+
     def account(case, obs, verdict, origin):
         name = case["adapter"]
+        bump("log=%s %s" % (case.get("log", "default"), "cancel_jobs" if case["kind"] == "unit" else
+                            "cancel_study after submit/check_jobs polls" if case.get("mode") == "submit" else
+                            "cancel_study (ledger written)"))
         if case.get("stream") == "boundary":
             n = len(case["ids"]) if case["kind"] == "unit" else case["nodes"]
             nontrivial = n >= 2
@@ -1103,7 +1197,8 @@ def run_adapters(ck):
         ck.count(("adapters", _case_key(case)), nontrivial=nontrivial)
         rec = dict(case, observed=obs, origin=origin)
         if verdict:
-            ck.violation("C07 (real %s adapter): %s" % (name, verdict), rec)
+            ck.violation("C07 (real %s adapter%s): %s" % (
+                name, ", DEBUG logging as under -d 1" if case.get("log") == "debug" else "", verdict), rec)
         elif obs.get("setup_exc") or (case["kind"] == "e2e" and obs.get("exc")):
             ck.mismatch("C07 adapters: the %s adapter could not be driven up to the cancel request" % name, rec,
                         obs.get("setup_exc") or "%s during %s" % (obs["exc"], obs["phase"]))
@@ -1127,18 +1222,18 @@ def run_adapters(ck):
     sampled = False
     for name in names:
         for case in gen_unit_cases(rng, name, budget["unit"], exhaustive=(ck.tier != "quick")):
-            obs, verdict = replay_case(case)
+            obs, verdict = replay_case(lv(case))
             rec = account(case, obs, verdict, "generated")
             if not sampled and name == "slurm" and len(case["ids"]) >= 3 and case.get("fail"):
                 ck.sample({"c07_adapters": rec})
                 sampled = True
         if can_submit(name):
             for _ in range(budget["e2e"]):
-                case = gen_e2e_case(rng, name, "submit")
+                case = lv(gen_e2e_case(rng, name, "submit"))
                 obs, verdict = replay_case(case, rng)
                 account(case, obs, verdict, "generated")
         for _ in range(budget["inject"]):
-            case = gen_e2e_case(rng, name, "inject")
+            case = lv(gen_e2e_case(rng, name, "inject"))
             obs, verdict = replay_case(case, rng)
             account(case, obs, verdict, "generated")
         # boundary sizes (batched cancel commands): 0 .. 1000 ids, and as many steps in progress
@@ -1146,21 +1241,23 @@ def run_adapters(ck):
         if ck.tier != "quick":
             sizes += [rng.randint(300, 999), rng.randint(1001, 3000)]
         for case in gen_boundary_units(rng, name, sizes, 3 if ck.tier == "quick" else None):
-            obs, verdict = replay_case(case)
+            obs, verdict = replay_case(lv(case))
             account(case, obs, verdict, "boundary")
         for n in sizes:
             if ck.tier == "quick" and n >= 1000 and names.index(name) != ck.seed % len(names):
                 continue          # quick: the 1000-step graph for one adapter (rotating with the seed)
-            case = gen_boundary_e2e(rng, name, n)
+            case = lv(gen_boundary_e2e(rng, name, n))
             obs, verdict = replay_case(case, rng)
             account(case, obs, verdict, "boundary")
 
     ck.cov["adapters_cancel"] = {
-        "adapters": names, "interfaces_not_registered_by_FluxFactory": unreachable_interfaces(), "flux_adapter_built_by": how, "corpus": ncorpus,
+        "adapters": names, "log_records_formatted": dict(LOG_RECORDS), "interfaces_not_registered_by_FluxFactory": _quiet(unreachable_interfaces), "flux_adapter_built_by": how, "corpus": ncorpus,
         "rule": "per real adapter: cancel_jobs([]); cancel_jobs(ids) for 1-6 prefix-related ids x failing subsets at "
                 "every position (exhaustive for <=4 ids in the thorough tier); cancel_study of a real ExecutionGraph "
                 "after 0-4 scripted polls with real submissions (e2e/submit) or a directly written in-progress ledger "
                 "(e2e/inject); boundary stream: list lengths / steps in progress 0,1,2,63-65,99-101,127-129,199-201,255-257,1000 (+2 random large sizes in the "
                 "thorough tier) x failing ids at the ends, the middle and every 100th position. Oracle: set of ids with a cancel attempted = ids in the list / the stub's ledger of "
-                "live jobs; record status OK iff no attempt failed",
+                "live jobs; record status OK iff no attempt failed. Every generated case runs under one of two logging "
+                "configurations, alternating: default (no logger enabled for DEBUG) and DEBUG as `maestro -d 1` sets it up "
+                "(root + maestrowf loggers at DEBUG with a formatting handler); the oracle is the same under both",
         "histogram": dict(sorted(hist.items()))}
